@@ -56,7 +56,8 @@ def r2c_case(draw):
         lo, hi = (-20, 25) if dtype == "f4" else (-150, 150)
         colscale = [draw(st.integers(lo, hi)) for _ in range(ncol)]
     return {"shape": shape, "axis": axis, "dtype": dtype, "kind": kind, "seed": draw(st.integers(0, 2**31 - 1)), "colscale": colscale,
-            "w": draw(st.integers(0, max(0, N // 2))), "a": draw(st.integers(-48, 48)) / 16, "b": draw(st.integers(-48, 48)) / 16}
+            "w": draw(st.integers(0, max(0, N // 2))), "a": draw(st.integers(-48, 48)) / 16, "b": draw(st.integers(-48, 48)) / 16,
+            "swap": draw(st.integers(0, 5)) == 0}
 
 
 def mk(case, seed_off=0):
@@ -95,9 +96,14 @@ def run_r2c(case, stt):
     axis = case["axis"]
     N = x.shape[axis]
     x0 = x.copy()
-    with lib("real_to_complex"):
-        y = pb.utils.real_to_complex(x, axis=axis)
-    check(np.array_equal(x, x0), "real_to_complex modified its input")
+    xin = x
+    if case.get("swap") and x.dtype.itemsize > 1:
+        # the same values of the same real type held in the other byte order (data read from a big-endian file)
+        xin = x.astype(x.dtype.newbyteorder("S"))
+        stt.label("byte_swapped_input")
+    with lib("real_to_complex" + (" (byte-swapped %s input)" % x.dtype if xin is not x else "")):
+        y = pb.utils.real_to_complex(xin, axis=axis)
+    check(np.array_equal(xin, x0), "real_to_complex modified its input")
     want_dt = np.complex64 if x.dtype == np.float32 else np.complex128
     check(y.dtype == want_dt, "dtype {} for {} input along axis {} (expected {})", y.dtype, x.dtype, axis, np.dtype(want_dt))
     shape = list(x.shape)
